@@ -26,7 +26,8 @@ RULE = ("Hypothesis draws a logical file (C01 generator; plus DAQmx and scaled f
         'streams agree with one another.'
         ' File-level chunks are also inspected only after the iteration has ended (offsets, values), chunk objects '
         'through iteration / integer index / part slices, paths also as pathlib.Path, and a job reads a cut data file '
-        'by path next to its complete index file against the same bytes read as a stream.')
+        'by path next to its complete index file against the same bytes read as a stream.'
+        ' Raw-data-only continuation segments (either byte order) are appended to some files.')
 ASSUMPTIONS = [
     "independent encoder vf/encode.py",
     "paths documented as unavailable in a mode (.data on a lazily opened non-empty channel, data_chunks() after an "
